@@ -7,11 +7,24 @@ for f in sorted(glob.glob(os.path.join(os.path.dirname(os.path.abspath(__file__)
     name = os.path.basename(os.path.dirname(f))
     summ = re.sub(r"\s+", " ", m.get("summary", ""))[:170]
     needs = re.sub(r"\s+", " ", m.get("needs", ""))[:150]
-    res = re.sub(r"\s+", " ", str(m.get("result", "")))[:260]
+    fin = m.get("final", {})
+    first = re.sub(r"\s+", " ", str(m.get("result", "")))
+    missed_first = ("MISSED" in first) or ("missed" in first.lower()) or ("first_round" in m) or ("strengthening" in m)
+    if fin.get("caught_by"):
+        what = "; ".join(w for v in fin["checks"].values() for w in v.get("what", [])[:1])
+        res = "caught by `./check %s`: %s" % (", ".join(fin["caught_by"]), re.sub(r"\s+", " ", what)[:170])
+    elif fin.get("caught_without_failing_input_by"):
+        res = "reported by %s without a failing input (broken obligation/correspondence)" % ", ".join(fin["caught_without_failing_input_by"])
+    elif fin:
+        res = "MISSED"
+    else:
+        res = first[:200]
+    if missed_first and not res.startswith("MISSED"):
+        res += " — first missed, the check was strengthened (see meta.json)"
     conf = m.get("confirmed", {}).get("all_confirmed")
     rows.append((name, summ, needs, res, "yes" if conf else ("no" if conf is False else "-")))
 caught = sum(1 for r in rows if not r[3].startswith("MISSED"))
-first_missed = sum(1 for r in rows if "MISSED" in r[3] or "missed" in r[3].lower())
+first_missed = sum(1 for r in rows if "first missed" in r[3])
 print("%d seeded changes; %d reported by a check on the final tree; %d of them were missed at first and led to a stronger check.\n" % (len(rows), caught, first_missed))
 print("| seed | change | needs | result | confirmed (tests pass, demo fails with / passes without) |")
 print("|---|---|---|---|---|")
